@@ -722,7 +722,7 @@ pub fn blocking_clause(a: &Analysis, v: &mut Verdict, prop: &str) {
         }
         let exempt = matches!(
             a.case.ops[o].op,
-            Op::Flush | Op::Cycle | Op::Stats | Op::Join { .. } | Op::Spawn { .. } | Op::SetReporter { .. } | Op::ReplaceReporter { .. } | Op::ThreadEnd
+            Op::Flush | Op::Cycle | Op::Stats | Op::Join { .. } | Op::Spawn { .. } | Op::SetReporter { .. } | Op::ReplaceReporter { .. } | Op::CycleBurst { .. } | Op::ThreadEnd
         );
         if exempt {
             continue;
